@@ -8,7 +8,8 @@
    specification emits them in every mode); [firstn' stop] cuts after the event the consumer refuses.
 
    PROVED IN FULL, for all streams / states / stops / endings:
-     C01_line_step, C01_read_loop_spec           (a) the interpretation half
+     C01_line_step, C01_read_loop_spec,
+     C01_read_loop_is_fold, C01_field_parser_lines (a) the interpretation half
      C01_split_token, C01_split_token_shape      (b) what splitFunc's answer is, in terms of the line structure
      C01_split_path_tokenises, C01_spec_toks     (b) independence of the interpretation from the prefixes on
                                                      which splitFunc is consulted (= from the segmentation)
@@ -17,7 +18,7 @@
    PROVED IN PART: C01_tokens_partial            (c) the scanner-free composition, streams without leading BOM
    NOT PROVED (statements below as comments): C01_read, C01_connection, split_stable in its sharp form. *)
 From GoSse Require Import Base Lines FieldParser Whatwg WhatwgLines Split Scanner Reader ReadLoop Yields
-     LineStepProofs ReadLoopProofs SplitProofs ScannerProofs PathProofs RunParse.
+     LineStepProofs ReadLoopProofs SplitProofs ScannerProofs PathProofs FieldLinesProofs RunParse.
 Local Open Scope nat_scope.
 
 (* (a1) One line: FieldParser.scan_segment followed by the switch of read() changes the loop's variables
@@ -41,6 +42,23 @@ Theorem C01_read_loop_spec :
     fold_fields on_retry (negb on_retry) stop (fields_of ls) (end_err tl e) (mkrl last_id [] [] false) 0
     = firstn' stop (vis on_retry (interp (mode_for on_retry) last_id stream e)).
 Proof. exact read_loop_spec. Qed.
+
+(* (a3) ReadLoop.read_loop, the model of read(), over a parser whose Next hands out the fields fs and then
+   false with Err() = err, is that fold - for every fuel above the number of fields *)
+Theorem C01_read_loop_is_fold :
+  forall p fs err, pf_run p fs err ->
+    forall fuel on_retry ignore_eof stop s d, length fs < fuel ->
+      fst (read_loop fuel on_retry ignore_eof stop p s d)
+      = (fold_fields on_retry ignore_eof stop fs err s d, EndNormal).
+Proof. exact read_loop_pf. Qed.
+
+(* (a4) FieldParser.Next iterated over a token (fp_all) hands out exactly fields_of of the token's lines -
+   LF, CR and CR LF line ends - and sets ErrUnexpectedEOF iff the last line is unterminated *)
+Theorem C01_field_parser_lines :
+  forall f, fp_keep_comments f = false ->
+    fst (fp_all f) = fields_of (fst (wlines (fp_data f))) /\
+    fp_err (snd (fp_all f)) = fp_err f || nonempty (snd (wlines (fp_data f))).
+Proof. exact fp_all_lines. Qed.
 
 (* the line-by-line form of the specification used above is the specification *)
 Theorem C01_interp_lines :
@@ -94,12 +112,12 @@ Proof. exact scan_spec. Qed.
                       fst (fst (read_run EntryRead bc [] chunks e stop))
                       = firstn' stop (vis false (interp gosse_read [] (concat chunks) e))
      C01_connection : the same with EntryConn, gosse_conn, vis true, any initial last event ID.
-   Missing lemma (name: parser_fields): "iterating Parser.Next on a parser whose scanner satisfies sc_inv hands
-   out exactly fields_of LS for a tokenisation toks (concat chunks) LS tl of the input - with the first token's
-   BOM removed iff no byte was skipped before it (the D7 wrapper, upd_split) - and then Parser.Err() =
-   end_err tl e, or ErrTooLong after the fields of a prefix".  It composes FieldParser.fp_next over wlines of a
-   token (the analogue of MessageProofs.fp_next_line for CR / CR LF), Reader.parser_next_fuel and C01_scan;
-   the scanner's buffer management is already discharged by C01_scan.  Also missing: fitsb L s -> no ErrTooLong
+   Missing lemma (name: parser_fields): "pf_run (make_parser en bc (mkrd chunks e 0)) (fields_of LS) (end_err tl e)
+   for a tokenisation toks (strip_bom' (concat chunks)) LS tl - the first token's BOM removed iff no byte was
+   skipped before it (the D7 wrapper, upd_split) - or, with ErrTooLong, the fields of a prefix".  It is the glue
+   of Reader.parser_next_fuel between C01_field_parser_lines (per token) and C01_scan (per Scan call); with it,
+   C01_read_loop_is_fold, C01_spec_toks and C01_read_loop_spec compose to C01_read / C01_connection.  The
+   scanner's buffer management is already discharged by C01_scan.  Also missing: fitsb L s -> no ErrTooLong
    (see props/C20.v).  The correspondence harness (family parse) and the oracle holds_parse_c01 cover exactly
    this gap on the real code: model = code on every case, code = Whatwg.interp whenever fitsb holds.
      split_stable (sharp form): split_func d false = SplitTok adv tok -> forall x eof,
